@@ -225,6 +225,9 @@ func (x *Exec) Discharge(cfg *SolverCfg) []*Result {
 				relA = append(append([]*T(nil), base...), instances(base, sks, false)...)
 				relB = append(append([]*T(nil), base...), instances(base, sks, true)...)
 				relB = append(relB, matchInstances(relB, goal)...)
+				// a second round: the instances expose further reads (nested string concatenations,
+				// copies of copies)
+				relB = append(relB, matchInstances(relB, goal)...)
 			}
 			if x.Mode == ModeProof {
 				// bit-operator axioms at the ground applications (for the quantifier-free variants)
